@@ -58,7 +58,15 @@ def parse_vspec(path):
                 parts = text.split("\n==>\n")
                 if len(parts) != 2:
                     raise SystemExit(f"{path}: @@outline needs 'original' ==> 'call' sections")
-                fnspec(unit, cur[3]).setdefault("outlines", []).append({"name": cur[1], "header": cur[2], "original": parts[0].strip(), "call": parts[1].strip()})
+                subst = []
+                olines = []
+                for l in parts[0].split("\n"):
+                    ms = re.match(r"^@subst\s+(.*?)\s+=>\s+(\S+)\s*$", l)
+                    if ms:
+                        subst.append([ms.group(1), ms.group(2)])
+                    else:
+                        olines.append(l)
+                fnspec(unit, cur[3]).setdefault("outlines", []).append({"name": cur[1], "header": cur[2], "original": "\n".join(olines).strip(), "call": parts[1].strip(), "subst": subst})
             elif kind == "raw":
                 g["raw"].append({"text": text, "after_unit": unit["name"] if unit else None, "props": cur[1]})
             elif kind == "unit_raw":
